@@ -221,8 +221,18 @@ def run_pairs(specs, nproc=16, chunk=3):
     if not specs:
         return []
     chunks = [specs[i:i + chunk] for i in range(0, len(specs), chunk)]
+    from .pool import robust_map
+
+    def failed(ch, why):
+        res = []
+        for s in ch:
+            o = {k: v for k, v in s.items() if k not in ("m1", "m2")}
+            o.update(error=True, cls="DriverProcessFailure", msg=why, o1={"n": 0, "shapes": [], "V": []}, o2={"n": 0, "shapes": [], "V": []},
+                     m1={"T": s["m1"]["T"]}, m2={"T": s["m2"]["T"]}, t1=s["m1"]["T"], ncells=0)
+            res.append(o)
+        return res
+
     out = []
-    with ProcessPoolExecutor(max_workers=min(nproc, len(chunks)), mp_context=get_context("spawn")) as ex:
-        for r in ex.map(_chunk, chunks):
-            out.extend(r)
+    for r in robust_map(_chunk, chunks, nproc, failed):
+        out.extend(r)
     return out
